@@ -447,6 +447,8 @@ class Var:
         return a._new(absz(a.val), a.unit, a.dtype, None, a.buf.nan, a.buf.defd, a.buf.rel)
 
     def __pow__(a, n):
+        if a.dtype == I32:
+            raise DTypeError("'pow' does not support dtypes 'int32', ...")
         if isinstance(n, Var):
             if n.dims or not n.unit.is_one_scale() or n.unit.dims:
                 raise Unsupported('pow with non-scalar or dimensioned exponent')
